@@ -105,7 +105,7 @@ func epsPKCS7() []*epT {
 				}
 				return
 			}},
-		{name: "pkcs7.ParseWithSession", der: true, fast: true, pairLimit: -1, seeds: []seedT{seeds[5]},
+		{name: "pkcs7.ParseWithSession", der: true, pairLimit: -1, seeds: []seedT{seeds[5]},
 			call: func(x *cx, in []byte) (ok bool) {
 				var p7 *pkcs7.PKCS7
 				x.g("pkcs7.ParseWithSession", func() {
@@ -175,7 +175,7 @@ func epsCFCA() []*epT {
 			}},
 		escrow("cfca.ParseEscrowPrivateKey[base64]", b64),
 		escrow("cfca.ParseEscrowPrivateKey[prefixed]", b64Prefixed),
-		{name: "cfca.ParseCertificateRequest", der: true, fast: true, pairLimit: -1,
+		{name: "cfca.ParseCertificateRequest", der: true, pairLimit: -1,
 			seeds: []seedT{{name: "cfca-csr-sm2", gen: cfcaCSRSM2, parts: 2}},
 			call: func(x *cx, in []byte) (ok bool) {
 				x.g("cfca.ParseCertificateRequest", func() { _, err := cfca.ParseCertificateRequest(in); ok = err == nil })
@@ -187,25 +187,25 @@ func epsCFCA() []*epT {
 				x.g("cfca.OpenEnvelopedMessage", func() { _, err := cfca.OpenEnvelopedMessage(in, kr.EncCert(), kr.SM2Enc()); ok = err == nil })
 				return
 			}},
-		{name: "cfca.OpenEnvelopedMessageLegacy", der: true, fast: true,
+		{name: "cfca.OpenEnvelopedMessageLegacy", der: true,
 			seeds: []seedT{{name: "p7-enveloped-cfca-legacy-sm4ecb", gen: p7EnvelopedCFCALegacy, parts: 3}},
 			call: func(x *cx, in []byte) (ok bool) {
 				x.g("cfca.OpenEnvelopedMessageLegacy", func() { _, err := cfca.OpenEnvelopedMessageLegacy(in, kr.EncCert(), kr.SM2Enc()); ok = err == nil })
 				return
 			}},
-		{name: "cfca.VerifyMessageAttach", der: true, fast: true, pairLimit: -1,
+		{name: "cfca.VerifyMessageAttach", der: true, pairLimit: -1,
 			seeds: []seedT{{name: "p7-signed-sm2-noattr", gen: p7SignedNoAttr, parts: 6}},
 			call: func(x *cx, in []byte) (ok bool) {
 				x.g("cfca.VerifyMessageAttach", func() { ok = cfca.VerifyMessageAttach(in) == nil })
 				return
 			}},
-		{name: "cfca.VerifyMessageDetach", der: true, fast: true, pairLimit: -1,
+		{name: "cfca.VerifyMessageDetach", der: true, pairLimit: -1,
 			seeds: []seedT{{name: "p7-signed-sm2-detached", gen: p7SignedDetached, parts: 6}},
 			call: func(x *cx, in []byte) (ok bool) {
 				x.g("cfca.VerifyMessageDetach", func() { ok = cfca.VerifyMessageDetach(in, p7Content) == nil })
 				return
 			}},
-		{name: "cfca.VerifyDigestDetach", der: true, fast: true, pairLimit: -1,
+		{name: "cfca.VerifyDigestDetach", der: true, pairLimit: -1,
 			seeds: []seedT{{name: "p7-signed-sm2-digest-detached", gen: p7SignedDigest, parts: 6}},
 			call: func(x *cx, in []byte) (ok bool) {
 				x.g("cfca.VerifyDigestDetach", func() { ok = cfca.VerifyDigestDetach(in, p7Digest()) == nil })
